@@ -391,6 +391,8 @@ class _Expr(ast.NodeTransformer):
         # adjacent constant pieces merged, empty ones dropped
         vals: list = []
         for v in n.values:
+            if isinstance(v, ast.FormattedValue) and isinstance(v.value, ast.Constant) and isinstance(v.value.value, str) and v.conversion == -1 and v.format_spec is None:
+                v = v.value
             if isinstance(v, ast.Constant) and isinstance(v.value, str):
                 if not v.value:
                     continue
@@ -572,6 +574,10 @@ class Normaliser:
             changed |= c
             out, c = self._store_to_load(out)
             changed |= c
+            out, c = self._setdefault_idiom(out)
+            changed |= c
+            out, c = self._any_loop(out)
+            changed |= c
             out, c = self._table_dispatch(out)
             changed |= c
             out, c = self._table_dispatch2(out)
@@ -597,6 +603,11 @@ class Normaliser:
             return body if test.value else orelse
         if not body and not orelse:
             return [] if call_free(test) else [ast.Expr(value=test)]
+        if not body and len(orelse) == 1 and isinstance(orelse[0], ast.If) and not orelse[0].orelse:
+            inner = orelse[0]
+            nt = negate(test)
+            vals = (nt.values if isinstance(nt, ast.BoolOp) and isinstance(nt.op, ast.And) else [nt]) + (inner.test.values if isinstance(inner.test, ast.BoolOp) and isinstance(inner.test.op, ast.And) else [inner.test])
+            return [ast.If(test=ast.BoolOp(op=ast.And(), values=list(vals)), body=inner.body, orelse=[])]
         # if a: (if b: X) with no else arms  ==  if a and b: X   (also when the inner statement is `if b: <nothing> else: X`)
         if not orelse and len(body) == 1 and isinstance(body[0], ast.If) and (not body[0].orelse or not body[0].body):
             inner = body[0]
@@ -758,6 +769,49 @@ class Normaliser:
                 if isinstance(last, ast.Assign) and len(last.targets) == 1 and isinstance(last.targets[0], ast.Name) and last.targets[0].id == nx.value.id:
                     st.body = st.body[:-1] + [ast.Return(value=last.value)]
                     return out[: i + 1] + out[i + 2 :], True
+        return out, False
+
+    def _setdefault_idiom(self, out: list) -> Tuple[list, bool]:
+        """if K in D: r = D[K]  else: r = <fresh display>; D[K] = r     ->     r = D.setdefault(K, <fresh display>)"""
+        for i, st in enumerate(out):
+            if not (isinstance(st, ast.If) and len(st.body) == 1 and len(st.orelse) == 2):
+                continue
+            t = st.test
+            if not (isinstance(t, ast.Compare) and len(t.ops) == 1 and isinstance(t.ops[0], ast.In) and is_simple(t.left) and is_simple(t.comparators[0])):
+                continue
+            K, D = t.left, t.comparators[0]
+            a, b1, b2 = st.body[0], st.orelse[0], st.orelse[1]
+            sub = dump(ast.Subscript(value=D, slice=K, ctx=ast.Load()))
+            if not (isinstance(a, ast.Assign) and len(a.targets) == 1 and isinstance(a.targets[0], ast.Name) and dump(a.value) == sub):
+                continue
+            r = a.targets[0].id
+            if not (isinstance(b1, ast.Assign) and len(b1.targets) == 1 and isinstance(b1.targets[0], ast.Name) and b1.targets[0].id == r and isinstance(b1.value, (ast.List, ast.Dict, ast.Set)) and not ast.dump(b1.value).count("Name(")):
+                continue
+            if not (isinstance(b2, ast.Assign) and len(b2.targets) == 1 and dump(b2.targets[0]).replace("Store()", "Load()") == sub and isinstance(b2.value, ast.Name) and b2.value.id == r):
+                continue
+            new = ast.Assign(targets=[ast.Name(id=r, ctx=ast.Store())], value=ast.Call(func=ast.Attribute(value=D, attr="setdefault", ctx=ast.Load()), args=[K, b1.value], keywords=[]))
+            return out[:i] + [new] + out[i + 1 :], True
+        return out, False
+
+    def _any_loop(self, out: list) -> Tuple[list, bool]:
+        """for t in it: if c: return True      followed by  return False    ->   return any(c for t in it)
+           for t in it: if c: return False     followed by  return True     ->   return all(not c for t in it)"""
+        for i in range(len(out) - 1):
+            st, nx = out[i], out[i + 1]
+            if not (isinstance(st, ast.For) and not st.orelse and len(st.body) == 1 and isinstance(st.body[0], ast.If) and not st.body[0].orelse and len(st.body[0].body) == 1):
+                continue
+            inner = st.body[0]
+            r1 = inner.body[0]
+            if not (isinstance(r1, ast.Return) and isinstance(r1.value, ast.Constant) and isinstance(r1.value.value, bool) and isinstance(nx, ast.Return) and isinstance(nx.value, ast.Constant) and isinstance(nx.value.value, bool)):
+                continue
+            if r1.value.value is True and nx.value.value is False:
+                fn, elt = "any", inner.test
+            elif r1.value.value is False and nx.value.value is True:
+                fn, elt = "all", negate(inner.test)
+            else:
+                continue
+            gen = ast.GeneratorExp(elt=elt, generators=[ast.comprehension(target=st.target, iter=st.iter, ifs=[], is_async=0)])
+            return out[:i] + [ast.Return(value=ast.Call(func=ast.Name(id=fn, ctx=ast.Load()), args=[gen], keywords=[]))] + out[i + 2 :], True
         return out, False
 
     def _store_to_load(self, out: list) -> Tuple[list, bool]:
@@ -1366,7 +1420,7 @@ def may_disturb(st: ast.AST, value: ast.expr, ignore_targets_of: Optional[ast.st
     return False
 
 
-def forward_substitute(fn: ast.AST) -> bool:
+def forward_substitute(fn: ast.AST, recurse: bool = True) -> bool:
     """Remove temporaries.  (1) t = E; S[t]  with t used exactly once, in the header of the next statement, before
     anything with an effect.  (2) t = P with P call-free: every later use in the same block is replaced when nothing in
     between can change P's value."""
@@ -1448,10 +1502,10 @@ def forward_substitute(fn: ast.AST) -> bool:
         if not run(fn.body):  # type: ignore[attr-defined]
             break
         changed_any = True
-    for n in ast.walk(fn):
-        if isinstance(n, FuncNode) and n is not fn:
-            changed_any |= forward_substitute(n)
-            break  # deeper ones are reached by the recursive call
+    if recurse:
+        for n in ast.walk(fn):
+            if isinstance(n, FuncNode) and n is not fn:
+                changed_any |= forward_substitute(n, recurse=False)
     return changed_any
 
 
@@ -2007,6 +2061,46 @@ def hoist_nested_defs(fn: ast.AST) -> bool:
     return changed
 
 
+def separate_scopes(fn: ast.AST) -> None:
+    """The parameters and locals of a nested function are its own: give them names no enclosing scope uses, so that a
+    nested function that happens to re-use (or stops re-using) a name of its parent compares equal."""
+    k = 0
+    for g in ast.walk(fn):
+        if not isinstance(g, FuncNode) or g is fn:
+            continue
+        k += 1
+        own: Set[str] = set()
+        a = g.args
+        for x in a.posonlyargs + a.args + a.kwonlyargs:
+            own.add(x.arg)
+        if a.vararg:
+            own.add(a.vararg.arg)
+        if a.kwarg:
+            own.add(a.kwarg.arg)
+        declared: Set[str] = set()
+        for n in ast.walk(g):
+            if isinstance(n, (ast.Global, ast.Nonlocal)):
+                declared |= set(n.names)
+        for st in g.body:
+            for n in ast.walk(st):
+                if isinstance(n, ast.Name) and isinstance(n.ctx, ast.Store):
+                    own.add(n.id)
+        own -= declared
+        own = {n for n in own if "~" not in n}
+        if not own:
+            continue
+        ren = {n: f"{n}~{k}" for n in own}
+        for x in a.posonlyargs + a.args + a.kwonlyargs + ([a.vararg] if a.vararg else []) + ([a.kwarg] if a.kwarg else []):
+            if x.arg in ren:
+                x.arg = ren[x.arg]
+        for st in g.body:
+            for n in ast.walk(st):
+                if isinstance(n, ast.Name) and n.id in ren:
+                    n.id = ren[n.id]
+                elif isinstance(n, ast.arg) and n.arg in ren and False:
+                    pass
+
+
 # --------------------------------------------------------------------------------------------- alpha renaming
 def alpha_rename(fn: ast.AST) -> None:
     a = fn.args  # type: ignore[attr-defined]
@@ -2128,6 +2222,7 @@ def _list_locals(fn: ast.AST) -> Set[str]:
 def normal_form(fn: ast.AST, ctx: Ctx) -> str:
     g = copy.deepcopy(fn)
     _Strip().visit(g)
+    separate_scopes(g)
     Inliner(ctx, g).run()
     norm = Normaliser(bound_names=_param_names(g), list_locals=_list_locals(g))
     prev = None
@@ -2239,6 +2334,21 @@ def detect_renames(rel: str, src: str, tree: ast.Module) -> Dict[str, str]:
     ref = reference_module(rel)
     if ref is None or ref[0] == src:
         return {}
+    total: Dict[str, str] = {}
+    work = tree
+    for _ in range(4):
+        found = _detect_renames_once(work, ref[1])
+        found = {k: v for k, v in found.items() if k not in total}
+        if not found:
+            break
+        total.update(found)
+        work = copy.deepcopy(work)
+        _rename_everywhere(work, found)
+    return total
+
+
+def _detect_renames_once(tree: ast.Module, ref_tree: ast.Module) -> Dict[str, str]:
+    ref = (None, ref_tree)
     cf, rf = function_table(tree), function_table(ref[1])
     new_keys = [k for k in cf if k not in rf]
     gone_keys = [k for k in rf if k not in cf]
@@ -2246,6 +2356,9 @@ def detect_renames(rel: str, src: str, tree: ast.Module) -> Dict[str, str]:
     if not new_keys or not gone_keys:
         return out
     ids = reference_identifiers()
+    cc, rc = const_table(tree), const_table(ref[1])
+    cur_consts = {k: v for k, v in cc.items() if k not in rc}
+    ref_consts = {k: v for k, v in rc.items() if k not in cc}
     for nk in new_keys:
         nname = nk.rsplit(".", 1)[-1]
         if "#" in nname or nname in ids:
@@ -2259,8 +2372,8 @@ def detect_renames(rel: str, src: str, tree: ast.Module) -> Dict[str, str]:
             cand = copy.deepcopy(cf[nk][0])
             _rename_everywhere(cand, {nname: gname})
             try:
-                a = normal_form(cand, Ctx({}, {}, cf[nk][2], set()))
-                b = normal_form(rf[gk][0], Ctx({}, {}, rf[gk][2], set()))
+                a = normal_form(cand, Ctx({}, cur_consts, cf[nk][2], set()))
+                b = normal_form(rf[gk][0], Ctx({}, ref_consts, rf[gk][2], set()))
             except Exception:
                 continue
             if a == b:
